@@ -12,7 +12,7 @@ var corpusV map[string][]string
 
 func loadCorpus() {
 	corpusV = map[string][]string{}
-	f, err := os.Open("/verif/corpus/versions.txt")
+	f, err := os.Open(verifRoot() + "/corpus/versions.txt")
 	if err != nil {
 		return
 	}
@@ -34,6 +34,34 @@ func loadCorpus() {
 		}
 		corpusV[line[:tab]] = append(corpusV[line[:tab]], s)
 	}
+}
+
+var corpusR map[string][]string
+
+func corpusRanges(eco string) []string {
+	if corpusR == nil {
+		corpusR = map[string][]string{}
+		f, err := os.Open(verifRoot() + "/corpus/ranges.txt")
+		if err == nil {
+			defer f.Close()
+			sc := bufio.NewScanner(f)
+			sc.Buffer(make([]byte, 1<<20), 1<<20)
+			for sc.Scan() {
+				line := sc.Text()
+				if line == "" || strings.HasPrefix(line, "#") {
+					continue
+				}
+				tab := strings.IndexByte(line, '\t')
+				if tab < 0 {
+					continue
+				}
+				if s, err := unquote(line[tab+1:]); err == nil {
+					corpusR[line[:tab]] = append(corpusR[line[:tab]], s)
+				}
+			}
+		}
+	}
+	return corpusR[eco]
 }
 
 func corpusVersions(eco string) []string {
